@@ -78,7 +78,10 @@ macro_rules! dec_total {
                 }
             }
             if !$full {
-                assert!(!matches!(r, Ok((_, Packet::ConnectionRequest { .. })) | Ok((_, Packet::Response { .. })) | Ok((_, Packet::Challenge { .. }))), "handshake packet parsed from <= 64 bytes");
+                assert!(!matches!(r, Ok((_, Packet::ConnectionRequest { .. }))), "connection request parsed from a datagram shorter than a request");
+                if $size < 300 {
+                    assert!(!matches!(r, Ok((_, Packet::Response { .. })) | Ok((_, Packet::Challenge { .. }))), "handshake packet parsed from <= 64 bytes");
+                }
             }
             std::mem::forget(r);
         }
@@ -86,6 +89,7 @@ macro_rules! dec_total {
 }
 dec_total!(dec_total, NETCODE_MAX_PACKET_BYTES, true);
 dec_total!(dec_total_64, 64, false);
+dec_total!(dec_total_400, 400, false);
 
 /// dec_binding (C04/C17): whenever decode reaches the AEAD, the call carries exactly
 /// key = the key argument, nonce = 0^4 || LE(sequence bytes of the datagram),
